@@ -53,7 +53,7 @@ func runC03(w *World) *Result {
 		}
 		c03Affine(w, b, r)
 		c03Arity(w, b, r)
-		c03Dvc(w, b, r)
+		c03Dvc(w, b, r, "R-C03-dvc")
 		c03Scratch(w, b, r)
 		SliceHandleRule(w, b, r, "R-C03-handle")
 		if role == "bash" {
@@ -707,8 +707,7 @@ func c03Arity(w *World, b *Backend, r *Result) {
 	}
 }
 
-func c03Dvc(w *World, b *Backend, r *Result) {
-	rule := "R-C03-dvc"
+func c03Dvc(w *World, b *Backend, r *Result, rule string) {
 	mf := b.X.Methods["SliceInstantiation"]
 	if mf == nil {
 		r.Bad(rule, "dvc:"+b.Role, "-", "SliceInstantiation not found")
